@@ -7,9 +7,14 @@
 (*   JobStart(j, w) / JobEnd(j, w)          the job ran in worker thread w *)
 (*   DoneCall(w) / DoneRet(w)               notify_done                    *)
 (*   CloseCall / CloseRet, WorkerExit(w), Quiet, End(maxw, how)            *)
+(*   Hand(j)      the job is put into its worker's slot (inside process)   *)
+(*   ClosedSet    the pool's closed flag becomes true (inside close)       *)
 (* The atomic effects (SubmitEffect, DoneEffect, CloseEffect, Drop) of     *)
 (* Pool.tla are not logged; TLC places each between the call and the       *)
-(* return.  A trace is accepted iff some placement explains it.            *)
+(* return.  A trace is accepted iff some placement explains it.  Hand and  *)
+(* ClosedSet tie the placement to the two critical sections: the hand-over *)
+(* belongs to the submission's effect and happens while the pool is open,  *)
+(* and the flag is set by the close's effect.                              *)
 (***************************************************************************)
 EXTENDS Naturals, Sequences, TLC, TLCExt, Json, IOUtils, FiniteSets
 Traces == JsonDeserialize(IOEnv.TRACE_FILE)
@@ -51,6 +56,11 @@ SubmitEffect ==
    /\ UNCHANGED <<t, l, sub, dn, closed, cls>>
 SubmitRet == /\ More /\ Ev.e = "SubmitRet" /\ sub = Ev.j /\ subres = Ev.r
              /\ sub' = 0 /\ subres' = "none" /\ Adv /\ UNCHANGED <<ws, js, jw, dn, closed, cls>>
+\* the hand-over is part of the submission's atomic effect: it happens after the worker was chosen and while the pool is still open
+Hand == /\ More /\ Ev.e = "Hand" /\ sub = Ev.j /\ subres = "ok" /\ ~closed
+        /\ Adv /\ UNCHANGED <<ws, js, jw, sub, subres, dn, closed, cls>>
+ClosedSet == /\ More /\ Ev.e = "ClosedSet" /\ cls = "eff" /\ closed
+             /\ Adv /\ UNCHANGED <<ws, js, jw, sub, subres, dn, closed, cls>>
 \* once close() has returned no further job starts ("closing the pool starts no further job")
 JobStart == /\ More /\ Ev.e = "JobStart" /\ js[Ev.j] = "assigned" /\ jw[Ev.j] = Ev.w /\ cls # "done"
             /\ js' = [js EXCEPT ![Ev.j] = "started"] /\ Adv /\ UNCHANGED <<ws, jw, sub, subres, dn, closed, cls>>
@@ -91,7 +101,7 @@ End == /\ More /\ Ev.e = "End" /\ Ev.how = "ok" /\ Ev.maxw <= Size
        /\ \A w \in Workers : ws[w] \in {"none", "exited"}
        /\ Adv /\ UNCHANGED <<ws, js, jw, sub, subres, dn, closed, cls>>
 Next == SubmitCall \/ SubmitEffect \/ SubmitRet \/ JobStart \/ JobEnd \/ DoneCall \/ DoneRet
-        \/ WorkerExit \/ CloseCall \/ CloseEffect \/ CloseRet \/ End \/ Quiet
+        \/ WorkerExit \/ CloseCall \/ CloseEffect \/ CloseRet \/ End \/ Quiet \/ Hand \/ ClosedSet
         \/ \E w \in Workers : DoneEffect(w)
         \/ \E j \in Jobs : Drop(j)
 Spec == Init /\ [][Next]_vars
